@@ -781,6 +781,17 @@ func c02ObserverScope(c *Ctx, r *Result) {
 			if st.Get(v, o) == AvNonNil {
 				return
 			}
+			// a single-result type assertion on the source that dominates the removal: it panics
+			// on a nil interface, so the removal is only reached with a non-nil source
+			asserted := false
+			allInstrs(fn, func(x ssa.Instruction) {
+				if ta, ok := x.(*ssa.TypeAssert); ok && !ta.CommaOk && (ta.X == v || ta.X == src) && dominates(x, in) {
+					asserted = true
+				}
+			})
+			if asserted {
+				return
+			}
 			if _, dup := bad[i]; !dup {
 				bad[i] = accessPath(src)
 			}
